@@ -493,6 +493,11 @@ def transcendental_cases(ctx):
             for neg in (False, True):
                 if not ctx.quick or r.random() < 0.5:
                     out.append(('exp', (neg, c, ex), None))
+    # a negative base with an exponent that is an integer VALUE held with a non-zero exponent field (2.0, 1E+1 = what 5+5 reduces to, 30E-1): defined
+    # and exact (seeded change C02_i: the guard for fractional exponents looked at the representation)
+    for base in ((True, 2, 0), (True, 15, -1), (True, 3, 0)):
+        for ex in ((False, 20, -1), (False, 1, 1), (False, 30, -1), (False, 300, -2), (False, 2, 1), (True, 20, -1), (True, 1, 1), (False, 5, 0), (False, 25, -1)):
+            out.append(('pow', base, ex))
     out += [('exp', (False, 100000, 0), None), ('exp', (True, 100000, 0), None), ('exp', (False, 14149, 0), None), ('exp', (False, 14150, 0), None),
             ('ln', (False, 0, 0), None), ('ln', (True, 1, 0), None), ('pow', (False, 10, 0), (False, 6144, 0)), ('pow', (False, 10, 0), (False, 6145, 0)),
             ('pow', (False, 0, 0), (False, 0, 0)), ('pow', (False, 2, 0), (True, 1, 0)), ('pow', (True, 8, 0), (False, 3, 0)), ('pow', (True, 8, 0), (False, 5, -1))]
